@@ -128,3 +128,34 @@ def order_energies(radi, c, dt, dur, K):
         hs.append(radi._energy_exchange_etc.copy())
     orders = [hs[0]] + [hs[k] - hs[k - 1] for k in range(1, K + 1)]
     return hs, orders
+
+
+# --------------------------------------------------------------------------
+# independent oracles (written from the property statements, not from the code)
+# --------------------------------------------------------------------------
+def solid_angle(point, poly):
+    """solid angle of a planar convex polygon seen from point (Van Oosterom-Strackee on a fan)"""
+    p = np.asarray(point, dtype=float)
+    v = np.asarray(poly, dtype=float) - p
+    tot = 0.0
+    for k in range(1, len(v) - 1):
+        a, b, c = v[0], v[k], v[k + 1]
+        la, lb, lc = np.linalg.norm(a), np.linalg.norm(b), np.linalg.norm(c)
+        num = np.dot(a, np.cross(b, c))
+        den = la * lb * lc + np.dot(a, b) * lc + np.dot(a, c) * lb + np.dot(b, c) * la
+        tot += 2 * np.arctan2(num, den)
+    return abs(tot)
+
+
+def nearest_index(dirs, v):
+    d = np.sum((np.asarray(dirs) - np.asarray(v)) ** 2, axis=-1)
+    return int(np.argmin(d)), d
+
+
+def shift_zero(h, n):
+    """delay by n bins with zero fill along the last axis"""
+    out = np.zeros_like(h)
+    N = h.shape[-1]
+    if n < N:
+        out[..., n:] = h[..., :N - n]
+    return out
